@@ -85,6 +85,12 @@ def gen_cases(tier, rng):
     for i in range(12 if tier == "quick" else 60):
         cases.append({"cls": "mode-accessors", "hr": r3(rng.uniform(0.0, 4.0)), "omega": r3(rng.uniform(50, 2000)),
                       "unit": str(rng.choice(["1/cm", "eV", "THz", "int"])), "n": [int(x) for x in rng.integers(1, 8, size=2)], "cost": 0.2})
+    # a single molecule with several modes: its own vibronic Hamiltonian treats the modes as independent oscillators
+    for i in range(10 if tier == "quick" else 60):
+        K = 2 + i % 3
+        cases.append({"cls": "molecule-modes", "E": r3(rng.uniform(9000, 16000)),
+                      "modes": [{"omega": r3(rng.uniform(80, 1500)), "hr": r3(rng.uniform(0.05, 1.5)), "n0": int(rng.integers(2, 4)), "n1": int(rng.integers(2, 4))} for _ in range(K)],
+                      "cost": 1.0})
     return cases
 
 
@@ -159,6 +165,48 @@ def run_case(case, ctx):
         ctx.require("state-count", dim == case["n"][0] + case["n"][1], {"what": "Molecule Hamiltonian dimension", "got": dim, "want": sum(case["n"])})
         ctx.key(("mode", case["hr"], case["unit"], tuple(case["n"])))
         ctx.nontrivial(case["hr"] > 0)
+        return
+
+    if cls == "molecule-modes":
+        modes = case["modes"]
+        K = len(modes)
+
+        def mk(sel):
+            with qr.energy_units("1/cm"):
+                mo = qr.Molecule([0.0, case["E"]])
+                for k in sel:
+                    md_ = qr.Mode(modes[k]["omega"])
+                    mo.add_Mode(md_)
+                    md_.set_nmax(0, modes[k]["n0"])
+                    md_.set_nmax(1, modes[k]["n1"])
+                    md_.set_HR(1, modes[k]["hr"])
+            return mo
+        with ctx.lib("Molecule.get_Hamiltonian (several modes, and each mode alone)"):
+            Hm = numpy.array(mk(range(K)).get_Hamiltonian().data, dtype=float)
+            singles = [numpy.array(mk([k]).get_Hamiltonian().data, dtype=float) for k in range(K)]
+            Eint = float(qr.convert(case["E"], "1/cm", "int"))
+        n0 = int(numpy.prod([m["n0"] for m in modes]))
+        n1 = int(numpy.prod([m["n1"] for m in modes]))
+        ctx.require("state-count", Hm.shape == (n0 + n1, n0 + n1), {"what": "Molecule Hamiltonian dimension with %d modes" % K, "got": list(Hm.shape), "want": n0 + n1})
+        if Hm.shape == (n0 + n1, n0 + n1):
+            sc = float(numpy.max(numpy.abs(Hm)))
+            ctx.check("no-other-couplings", float(numpy.max(numpy.abs(Hm[:n0, n0:]))), 1e-12 * sc, {"what": "no elements between the electronic states of a molecule without diabatic coupling", "modes": K})
+            # independent modes: the spectrum of every electronic block is the set of all sums of the single-mode level energies
+            def ksum(blocks):
+                ev = numpy.array([0.0])
+                for b in blocks:
+                    ev = (ev[:, None] + numpy.linalg.eigvalsh(b)[None, :]).ravel()
+                return numpy.sort(ev)
+            g_ref = ksum([singles[k][:modes[k]["n0"], :modes[k]["n0"]] for k in range(K)])
+            e_ref = ksum([singles[k][modes[k]["n0"]:, modes[k]["n0"]:] for k in range(K)]) - (K - 1) * Eint
+            g_got = numpy.sort(numpy.linalg.eigvalsh(Hm[:n0, :n0]))
+            e_got = numpy.sort(numpy.linalg.eigvalsh(Hm[n0:, n0:]))
+            wmax = max(m["omega"] for m in modes) * 1.8836515673088532e-4
+            ctx.check("coupling==J*overlaps", float(numpy.max(numpy.abs(g_got - g_ref))), 1e-9 * wmax * K, {"what": "ground-state vibrational levels of a molecule with several modes = sums of single-mode levels", "modes": K})
+            ctx.check("coupling==J*overlaps", float(numpy.max(numpy.abs(e_got - e_ref))), 1e-9 * max(wmax, 1e-6 * Eint) * K + 1e-12 * Eint,
+                      {"what": "excited-state vibronic levels of a molecule with several modes = sums of single-mode levels", "modes": K})
+        ctx.key(("molecule-modes", K, tuple((m["n0"], m["n1"], m["hr"]) for m in modes)))
+        ctx.nontrivial(K >= 2)
         return
 
     # ------------------------------------------------------------ aggregate
